@@ -146,3 +146,42 @@ Theorem C03_bet_settlement_generated :
      end).
 Proof. split; [exact gen_RefundBettor|split; [exact gen_BettorWins|exact gen_BettorLoses]]. Qed.
 Print Assumptions C03_bet_settlement_generated.
+
+(* Keeper.Settle of x/bet/keeper/settle.go (with updateSettlementState, settleResolved and the order-book keeper's WithdrawBetFee), generated
+   on every run as a function on the state it reaches through its keepers - the uid index entry, the stored bet, its market, the
+   participations and effect log of the order book, the pending and settled indexes, the block height - IS the model's settle_bet: the same
+   refusals (unknown or foreign bet, already settled, market not resolved, a missing participation), the same payments in the same order,
+   the same participation updates, the bet recorded as settled with the same result at this height, removed from the pending index and
+   entered once in the settled index.  C03_payout and the history theorems above are therefore statements about this Go function *)
+Theorem C03_settle_generated : forall x h id b,
+  findb (fun c => b_id c =? id) (ms_bets x) = Some b -> 0 <= b_uid b -> b_status b <> 2 ->
+  K_bset_Settle (bset_state x b id h) (b_creator b) (b_uid b) =
+  match settle_bet x h id with
+  | None => None
+  | Some (x', effs) => Some (bset_after x b id h x' effs (settled_as (ms_mkt x) b))
+  end.
+Proof. exact gen_Settle. Qed.
+Print Assumptions C03_settle_generated.
+(* non-vacuity: in a state reached by a history (deposit, wager, result declared for the bet's outcome) the hypotheses hold for the pending
+   bet, the generated Settle accepts, and it pays the winner stake + winnings out of the pool and the bet fee to the market creator *)
+From Sge Require Import Witness.C03w.
+Example C03_settle_generated_witness :
+  match get_ms c03w_s 1 with
+  | Some x =>
+      match findb (fun c => b_id c =? 1) (ms_bets x) with
+      | Some b =>
+          (0 <=? b_uid b) && negb (b_status b =? 2) &&
+          match K_bset_Settle (bset_state x b 1 2) (b_creator b) (b_uid b) with
+          | Some st => match S_settle_Effects (S_bset_Ob st) with
+                       | [(a1, a2, a3, a4); (c1, c2, c3, c4)] =>
+                           (a1 =? 0) && (a2 =? -1) && (a3 =? 2) && (a4 =? 98) && (c1 =? 0) && (c2 =? -2) && (c3 =? 1) && (c4 =? 1)
+                       | _ => false
+                       end
+                       && (G_Bet_Status (S_bset_Bet st) =? 6) && (G_Bet_Result (S_bset_Bet st) =? 2)
+          | None => false
+          end
+      | None => false
+      end
+  | None => false
+  end = true.
+Proof. vm_compute. reflexivity. Qed.
